@@ -49,7 +49,22 @@ func genDeployWorld(t *rapid.T, prop string, opts SetGenOpts, extra func(t *rapi
 			}
 		}
 	}
+	if opts.AllowCluster && rapid.IntRange(0, 3).Draw(t, "clusterdep") == 0 {
+		clusterFlavour(sc)
+	}
 	return sc
+}
+
+// clusterFlavour turns a deployment scenario into its cluster-scoped twin: a ClusterObjectDeployment whose revisions are
+// ClusterObjectSets (objects keep living in the main namespace), reconciled by the cluster flavours of the controllers.
+func clusterFlavour(sc *Scenario) {
+	sc.ClusterDep = true
+	twin := map[string]string{engine.CtrlObjectDeployment: engine.CtrlClusterObjectDeployment, engine.CtrlObjectSet: engine.CtrlClusterObjectSet, engine.CtrlObjectSetPhase: engine.CtrlClusterObjectSetPhase}
+	for i := range sc.Steps {
+		if c, ok := twin[sc.Steps[i].Ctrl]; ok {
+			sc.Steps[i].Ctrl = c
+		}
+	}
 }
 
 func c09Extra(t *rapid.T, sc *Scenario) {
@@ -73,7 +88,7 @@ func c09Extra(t *rapid.T, sc *Scenario) {
 
 func TestC09(t *testing.T) {
 	st := NewStats("C09", "engine", "scenario = one ObjectDeployment over 2-4 templates (local/delegated phases) with template edits and pause/unpause toggled on ObjectDeployment, ObjectSet and ObjectSetPhase at arbitrary moments during rollout, handover and drift (managed objects deleted, modified, re-owned); non-trivial = a paused ObjectSet/ObjectSetPhase pass that observes drift (an object missing or not controlled), or a deployment pass releasing revisions on unpause")
-	opts := SetGenOpts{AllowClass: true, PoolSize: 5, MaxObjs: 2, MaxPhases: 3}
+	opts := SetGenOpts{AllowClass: true, AllowCluster: true, PoolSize: 5, MaxObjs: 2, MaxPhases: 3}
 	mk := func(sc *Scenario) (*Runner, *C09Monitor) {
 		m := &C09Monitor{}
 		return NewRunner(sc, m), m
@@ -83,6 +98,9 @@ func TestC09(t *testing.T) {
 	}, func(rt *rapid.T) {
 		sc := genDeployWorld(rt, "C09", opts, c09Extra)
 		r, m := mk(sc)
+		if sc.ClusterDep {
+			r.Labels["cluster-scoped-deployment"] = true
+		}
 		err := r.Run()
 		st.Count("passes", int64(len(r.W.Passes)))
 		st.Count("paused_passes", int64(m.PausedPasses))
